@@ -66,6 +66,16 @@ pub fn fold_case() -> BoxedStrategy<FoldCase> {
         prop_oneof![4 => Just(None), 1 => body_bytes(1).prop_map(|b| Some(B(b))), 1 => Just(Some(B(b"a=%zz".to_vec()))), 1 => Just(Some(B(b"a=1\n".to_vec()))), 1 => Just(Some(B(b"a=1&b=2\r\n".to_vec()))), 1 => Just(Some(B(b"\na=1".to_vec()))), 1 => Just(Some(B(b"a=%C3%28&\xc3\x28=1".to_vec()))), 1 => Just(Some(B(b"\xEF\xBB\xBFa=1".to_vec()))),
             // byte-order marks of other encodings in front of text in that encoding: not UTF-8, whatever a sniffing decoder thinks
             1 => prop_oneof![Just(Some(B(b"\xFF\xFEa\x00=\x001\x00".to_vec()))), Just(Some(B(b"\xFE\xFF\x00a\x00=\x001".to_vec()))), Just(Some(B(b"\xFF\xFE".to_vec()))), Just(Some(B(b"\xFF\xFEa=1".to_vec()))), Just(Some(B(b"\xFE\xFF".to_vec())))],
+            // a `_charset_` field (what browsers fill in) is a parameter like any other: it does not choose the decoder
+            1 => prop_oneof![
+                Just(Some(B(b"_charset_=iso-8859-1&a=caf\xc3\xa9".to_vec()))),
+                Just(Some(B(b"_charset_=iso-8859-1&a=caf\xe9".to_vec()))),
+                Just(Some(B(b"a=\xe9&_charset_=windows-1252".to_vec()))),
+                Just(Some(B(b"_charset_=utf-16le&a=1".to_vec()))),
+                Just(Some(B(b"_charset_=utf-8&a=%C3%A9".to_vec()))),
+                Just(Some(B(b"_charset_=shift_jis&a=\x83\x65".to_vec()))),
+                Just(Some(B(b"charset=iso-8859-1&a=\xe9".to_vec()))),
+            ],
             // bodies beyond 1 KiB / 4 KiB / 64 KiB
             1 => (prop_oneof![Just(1025usize), Just(4097), Just(8193), 1026usize..20_000, Just(65_537)], any::<u8>()).prop_map(|(n, f)| { let mut b = b"big=".to_vec(); b.extend(std::iter::repeat(b'a' + f % 26).take(n)); b.extend_from_slice(b"&last=1"); Some(B(b)) })],
         prop_oneof![4 => Just(None), 1 => any::<u16>().prop_map(Some)],
